@@ -223,6 +223,16 @@ BRIDGES = {
     "C16": ["EdsProofs.BridgeDefaults", "EdsProofs.BridgeSlowStart"],
     "C09": ["EdsProofs.BridgeSlowStart"],
 }
+SRC_THEOREMS = {
+    "C05": [("EdsProps.C05s", "C05_src_")],
+    "C08": [("EdsProps.C08s", "C08_src_")],
+    "C07": [("EdsProps.C07s", "C07_src_")],
+    "C13": [("EdsProps.C07s", "C07_src_")],
+    "C16": [("EdsProps.C16s", "C16_src_")],
+    "C09": [("EdsProps.C09s", "C09_src_")],
+}
+for _p, _l in SRC_THEOREMS.items():
+    PROPS[_p]["extra_theorems"] = PROPS[_p].get("extra_theorems", []) + _l
 for _p, _mods in BRIDGES.items():
     PROPS[_p].setdefault("extra_theorems", [])
     PROPS[_p].setdefault("trusted_base", [])
